@@ -7,6 +7,11 @@
 //	      first use of every lazily initialised cache inside it happens concurrently) `iterations` times, each
 //	      in a rotated order, and canonicalise what they get.
 //	      observable: the serial results joined by " ; " if every goroutine got them, else the first mismatch.
+//	first label, N, program
+//	      N goroutines, released together, compile and evaluate the program from source.  Placed first in the case
+//	      stream, so in a fresh process this is the first use of the standard-library scope (syntax.StdScope,
+//	      FixFuncs, the embedded-file cache), made concurrently.
+//	      observable: the common result, or the first differing pair.
 //	impc  label, keys of the callers (comma separated), per-key outcome scripts of add ("k=evn…", ';' separated)
 //	      N goroutines call importcache.GetOrAddFromCache on one shared cache; the i-th call of add for a key
 //	      returns a value (v), an error (e) or (nil, nil) (n) as scripted (v after the script ends).
@@ -137,6 +142,43 @@ func conc(p []string) string {
 		return mismatch[0]
 	}
 	return strings.Join(serial, " ; ")
+}
+
+func first(p []string) string {
+	if len(p) < 3 {
+		return "harness-error:first-arity"
+	}
+	defer bracket(p[0])()
+	n, _ := strconv.Atoi(p[1])
+	results := make([]string, n)
+	var wg sync.WaitGroup
+	release := make(chan struct{})
+	for g := 0; g < n; g++ {
+		wg.Add(1)
+		go func(g int) {
+			defer wg.Done()
+			defer func() {
+				if r := recover(); r != nil {
+					results[g] = "panic:" + hlib.FirstFrame() + ":" + strings.SplitN(fmt.Sprint(r), "\n", 2)[0]
+				}
+			}()
+			<-release
+			v, err := hlib.EvalSrc(p[2])
+			if err != nil {
+				results[g] = "error"
+				return
+			}
+			results[g] = hlib.Canon(v)
+		}(g)
+	}
+	close(release)
+	wg.Wait()
+	for g := 1; g < n; g++ {
+		if results[g] != results[0] {
+			return "mismatch:" + clip(results[0]) + " vs " + clip(results[g])
+		}
+	}
+	return results[0]
 }
 
 func clip(s string) string {
@@ -281,6 +323,7 @@ func impx(p []string) string {
 
 func init() {
 	hlib.Register("conc", conc)
+	hlib.Register("first", first)
 	hlib.Register("impc", impc)
 	hlib.Register("impx", impx)
 }
